@@ -187,7 +187,13 @@ def handle(case):
             out['plain'] = {'ops': observe(c), 'duration': ticks(c.duration), 'acq': acq(c, qubits)}
             out['plain']['stim'], out['plain']['stim_flat'] = stim_text(c)
         blocks = []
-        if 'unrolled' in want or 'flat' in want:
+        if case.get('dur_first'):         # fresh construction, unrolled, duration read BEFORE anything is listed
+            u = build(case)[0].apply_modifiers()
+            d = ticks(u.duration)
+            out['blocks'] = []
+            out['unrolled'] = {'ops': observe(u), 'duration': d, 'acq': acq(u, qubits), 'reps': [s.nr_of_repetitions for s in u.composite_operations]}
+            out['unrolled']['stim'], out['unrolled']['stim_flat'] = stim_text(u)
+        elif 'unrolled' in want or 'flat' in want:
             c2, _ = build(case)
             for b in c2.composite_operations:
                 blocks.append((b, b.nr_of_repetitions, sig(b.decomposed_operations())))
